@@ -7,6 +7,8 @@ C09.who     only the gated accessors, the lifecycle functions, mem_prot and the 
 C09.init    constructor marks code R|X; loader applies elf_flags_to_prot(p_flags); elf_flags_to_prot is the R/W/X permutation
 C09.prot    mem_prot stores only `access` of the matching area, after the <= 7 guard
 """
+LEVEL = "proof"
+
 from .. import absint as A
 from .. import facts as F
 from .. import hutil as U
@@ -98,6 +100,7 @@ def gates(ctx):
                     ck.ok("C09.denied", inst)
     ck.sample({"rule": "C09.gate", "classes": n, "accessors": ["mem_read_bytes", "mem_write_bytes", "mem_read_executable_bytes"]})
     ck.floor("gate classes", n, 24)
+    ck.cov["exhaustive"] = True  # 3 accessors x 8 masks
 
 
 def bodies_touching(facts, field):
